@@ -44,6 +44,7 @@ def run(ctx):
     ctx.guard(rule_f, ctx, ix)
     ctx.guard(rule_g, ctx, ix)
     ctx.guard(rule_h, ctx, ix)
+    ctx.guard(rule_i, ctx, ix)
 
 
 def _ev(ix):
@@ -883,3 +884,76 @@ def rule_h(ctx, ix):
     ctx.ob(R, 'selection modules', 'every function of the selection modules was scanned for in-place changes of borrowed collections '
            '(%d functions; properties that hand out a stored collection: %s)' % (n, ', '.join(sorted(props_)) or 'none'), n >= 100,
            detail='only %d functions scanned' % n)
+
+
+def rule_i(ctx, ix):
+    """The masks of a selection are memoised per (state, data, view) - also the masks of the selections it is a part of.  When a
+    field of a selection is re-assigned, every cache has to be dropped: the flush in SubsetState.__setattr__ may depend on
+    whether the attribute already exists and on nothing else (the edited state's own kind says nothing about the composites
+    that contain it), and move_to(), which edits the region object behind the state, flushes too."""
+    from .. import cond
+    R = 'C01.i'
+    ctx.describe(R, 're-assigning a field of a selection drops every memoised mask, whatever kind of selection is edited', floor=3)
+    base = ix.cls(SUBSET + '.SubsetState')
+    f = base.resolve_func('__setattr__')
+    if f is None:
+        raise AnalysisError('SubsetState.__setattr__ vanished')
+    name_p = f.params[1]
+    pm = parent_map(f.node)
+
+    def stmt_of(c):
+        st = c
+        while st is not None and not isinstance(st, ast.stmt):
+            st = pm.get(id(st))
+        return st
+    flushes = [c for c in calls_in(f.node) if call_name(c) == 'clear_all_caches']
+    ctx.ob(R, f.construct, 'the setter flushes the mask caches', bool(flushes),
+           detail='SubsetState.__setattr__ no longer calls clear_all_caches(): a selection that was evaluated, then edited, keeps '
+                  'answering with the mask of its old definition', where=f.where)
+    exists = cond.T('in|%s|%s.__dict__' % (name_p, f.self_name))
+    for c in flushes:
+        st = stmt_of(c)
+        pc = cond.path_condition(f.node, st, expand=True) or ('const', True)
+        try:
+            ok = cond.implies(exists, pc)        # flushed whenever the attribute exists already (or always)
+        except ValueError:
+            ok = False
+        ctx.ob(R, f.construct + ' guard', 'the flush runs whenever an existing attribute is re-assigned', ok,
+               detail='SubsetState.__setattr__ flushes the caches only under `%s`: re-assigning a field of a selection of another kind '
+                      '(a range, a region, a mask - whose own to_mask is not memoised) leaves the memoised masks of the combined '
+                      'selections that contain it in place, and they keep answering with the old definition' % (pc,),
+               where=where(f, st))
+    # the store itself happens on every path
+    ok = False
+    for c in calls_in(f.node):
+        if call_name(c) == '__setattr__':
+            pc = cond.path_condition(f.node, stmt_of(c), expand=True)
+            ok = ok or pc in (None, ('const', True))
+    ctx.ob(R, f.construct + ' store', 'the attribute is stored on every path', ok,
+           detail='SubsetState.__setattr__ does not store the attribute unconditionally', where=f.where)
+    # no subclass replaces the setter without going through it
+    for c in base.subclasses(strict=True):
+        m = c.members.get('__setattr__')
+        if m is None or m.func is None:
+            continue
+        sup = any(isinstance(x, ast.Call) and call_name(x) == '__setattr__' and 'super' in unparse(x.func) for x in ast.walk(m.func.node))
+        fl = any(call_name(x) == 'clear_all_caches' for x in calls_in(m.func.node))
+        ctx.ob(R, m.func.construct, 'an overriding setter still flushes (through the base setter or itself)', sup or fl,
+               detail='%s overrides __setattr__ without calling the base setter or clear_all_caches()' % m.func.construct, where=m.func.where)
+    # move_to edits the region behind the state without assigning a field: it has to flush itself
+    for c in base.subclasses():
+        m = c.members.get('move_to')
+        if m is None or m.func is None or m.func.cls is not c:
+            continue
+        g = m.func
+        assigns_field = any(isinstance(x, (ast.Assign, ast.AugAssign)) and any(
+            isinstance(t, ast.Attribute) and isinstance(t.value, ast.Name) and t.value.id == g.self_name
+            for t in (x.targets if isinstance(x, ast.Assign) else [x.target])) for x in ast.walk(g.node))
+        flush = any(call_name(x) == 'clear_all_caches' for x in calls_in(g.node))
+        delegating = any(call_name(x) == 'move_to' and unparse(x.func).startswith(g.self_name + '.state') for x in calls_in(g.node))
+        trivial = not [x for x in body_stmts(g.node) if not (isinstance(x, ast.Expr) and isinstance(x.value, ast.Constant))
+                       and not isinstance(x, (ast.Pass, ast.Raise, ast.Return))]
+        ctx.ob(R, g.construct, 'move_to re-assigns a field (flushing through the setter), flushes itself, or only delegates to its parts',
+               assigns_field or flush or trivial or delegating,
+               detail='%s changes the selection without re-assigning a field and without clear_all_caches(): masks memoised before the '
+                      'move are served afterwards' % g.construct, where=g.where)
